@@ -234,11 +234,14 @@ def run(ck):
             try:
                 back = float(miso.pressure_at(lf, loading_basis=rq_l[0], loading_unit=rq_l[1], material_basis=rq_m[0], material_unit=rq_m[1],
                                               pressure_mode=rq_p[0], pressure_unit=rq_p[1]))
-                okk = relerr(back, qf) <= 1e-7
+                # the wrapper must return the bare model's pressure at that loading (not the round trip through loading(),
+                # which is ill-conditioned near saturation), converted to the requested representation
+                qb = float(c03.expected_pressure(w.props, lab, rq_p, float(miso.model.pressure(np.float64(bare)))))
+                okk = relerr(back, qb) <= 1e-7
             except Exception as e:  # noqa
-                back, okk = repr(e), False
+                back, okk, qb = repr(e), False, None
             if not okk:
-                ck.fail_case({**sig, "fn": "pressure_at"}, {"params": par, "loading": lf, "got": back, "expected": qf})
+                ck.fail_case({**sig, "fn": "pressure_at"}, {"params": par, "loading": lf, "got": back, "expected": qb})
     ck.cov["worst_relative_errors"] = {k: float(f"{v:.3g}") for k, v in sorted(worst.items())}
     ck.cov["rule"] = ("translator validation: every closed-form generated Float function vs its Python original on seeded parameter "
                       "vectors in bounds; property oracle: 16 models x seeded log-uniform parameter vectors x pressure grids in the validity "
